@@ -447,8 +447,12 @@ class SymInt:
 
   @staticmethod
   def _iv_shl(a, n):
-    if n.lo < 0: raise Inconclusive("possibly negative shift count")
-    if n.hi > W: raise Inconclusive("shift count may exceed width")
+    if n.lo < 0:
+      if bool(n < 0): raise ValueError("negative shift count")
+      n.lo = 0
+    if n.hi > W:
+      if bool(n > W - 2): raise Inconclusive("shift count may exceed width")
+      n.hi = W - 2
     c = [a.lo << n.lo, a.lo << n.hi, a.hi << n.lo, a.hi << n.hi]
     return min(c), max(c)
   def _int_shl(self, n):
@@ -825,6 +829,11 @@ class SymBytes:
       s = self.simplified()
       if isinstance(s, bytes): return s.decode('latin-1')
       return SymStr(self)
+    if enc.lower().replace('_', '-') in ('utf-8', 'utf8', 'ascii', 'us-ascii'):
+      s = self.simplified()
+      if isinstance(s, bytes): return s.decode(enc, errors)
+      if bool(And(*[(c < 128) for c in self.b if isinstance(c, SymInt)])): return SymStr(self)
+      raise Inconclusive("decode(%s) of possibly non-ASCII symbolic bytes" % enc)
     return self.concretize().decode(enc, errors)
   def join(self, it): raise Inconclusive("SymBytes.join")
 
@@ -906,7 +915,15 @@ def _render(op):
       if conv == '%': out.append(37); continue
       if key is not None: a = args[key]
       else: a = args[ai]; ai += 1
-      if conv in 'diu': cs = _digits(a, 10) if isinstance(a, (SymInt, SymBool, int)) else _chars(a)
+      w0 = int(width) if width else 0
+      base_ = 16 if conv in 'xX' else 10
+      if conv in 'diuxX' and '0' in flags and w0 and isinstance(a, SymInt) and a.lo >= 0 and a.hi < base_ ** w0:
+        # zero-padded fixed width that always fits: exactly w0 digits, no fork on the digit count
+        cs = []
+        for i in range(w0 - 1, -1, -1):
+          d = (a // (base_ ** i)) % base_ if i else a % base_
+          cs.append(Ite(d < 10, d + 48, d + (55 if conv == 'X' else 87)) if base_ > 10 else d + 48)
+      elif conv in 'diu': cs = _digits(a, 10) if isinstance(a, (SymInt, SymBool, int)) else _chars(a)
       elif conv in 'xX': cs = _digits(a, 16, conv == 'X')
       elif conv == 'c': cs = [a] if isinstance(a, (int, SymInt)) else _chars(a)
       else: cs = _chars(a)
